@@ -14,6 +14,7 @@ def tasks(run):
     out = [('program', (name, seed, {})) for (name, seed) in models.programs(run.seed, n)]
     for (name, seed) in models.programs(run.seed + 3, 11):
         out.append(('resolve', (name, seed, 'new_iterate')))
+    out += [('program', ('T_duplicates', v, {})) for v in range(2)]          # an object registered twice is sent once per registration
     return out
 
 
